@@ -409,7 +409,7 @@ Section RemJ.
   Proof.
     induction ids as [|j r IH]; intros s skip now HJ; cbn [rem_list].
     - exact HJ.
-    - destruct (String.eqb j skip); [apply IH; exact HJ|].
+    - destruct (skipped skip j); [apply IH; exact HJ|].
       pose proof (rem_rec_J s j now HJ) as H.
       destruct (rem_rec s j now) as [s1 [b|e|w|]]; cbn [fst] in *; try exact H.
       apply IH; exact H.
@@ -1213,7 +1213,7 @@ Section RemGone.
   Proof.
     induction ids as [|j r IH]; intros s skip now HG; cbn [rem_list].
     - exact HG.
-    - destruct (String.eqb j skip); [apply IH; exact HG|].
+    - destruct (skipped skip j); [apply IH; exact HG|].
       pose proof (rem_rec_gone s j now HG) as H.
       destruct (rem_rec s j now) as [s1 [b|e|w|]]; cbn [fst] in *; try exact H.
       apply IH; exact H.
